@@ -18,6 +18,33 @@ def run(P, rep, tier):
     rep.undecided = ('prefix property of the record sequence for every cut position as such; decided are the necessary conditions '
                      'above. A split_lines defect that fabricates a final newline would not be seen (C16 is not applicable).')
     rep.trusted_base += ['stream.read(n) returns at most n bytes', 'sink/guard facts of sa/models.py']
+    # ---- R5 first (cheap): an unterminated last line never becomes a record ---------------
+    from sa.roles import ReaderRoles
+    from sa.harness import ReaderHarness
+    R0 = ReaderRoles(P)
+    r5 = rep.rule('C07-R5', 'at end of file (also with an unterminated last line) the iteration ends; no record is yielded', reference=1)
+    H0 = ReaderHarness(P, R0, havoc=True)
+    H0.eof_tail = 'unknown'      # leftover bytes of an unterminated last line
+    npaths = 0
+    bad5 = None
+    for I_, path in H0.run([]):
+        npaths += 1
+        ys = [e for e in path.events if e.kind == 'yield']
+        if ys:
+            bad5 = ys[0]
+            break
+        if path.outcome == 'raise' and path.value.exc.exc_name != 'DiffXParseError':
+            pass
+        if npaths > 3000:
+            raise AnalysisError('too many paths at end of file')
+    if bad5 is not None:
+        rep.violation(r5, 'record-from-unterminated-line', R0.header_fn.loc(),
+                      'when the read-ahead helper reports end of file with leftover bytes (a last line without newline), the header '
+                      'function still parses them and a record is yielded: a file cut inside its last header yields a section with '
+                      'altered options', path=[R0.entry.short, R0.header_fn.short])
+        rep.info('remaining C07 rules not evaluated on this tree')
+        return
+    rep.ok(r5, R0.header_fn.short, {'paths': npaths})
     R, res = rr.analyse(P)
     rep.analysed(*R.funcs)
     r1 = rep.rule('C07-R1', 'read(n): n is the unmodified length option, proven int with lower and upper bound', reference=6)
